@@ -35,9 +35,12 @@ func c17Tx(seed uint64, i int) *c16Tx {
 	}
 }
 
-func runC17Conc(c Case, res *CaseResult) {
+func runC17Conc(c Case, tier string, res *CaseResult) {
 	r := h.NewRNG(c.Seed)
 	n := h.Pick(r, []int{2, 4, 8, 16, 32})
+	if quick(tier) && n == 32 {
+		n = 12
+	}
 	txs := make([]*c16Tx, n)
 	sameFork := r.Chance(50)
 	for i := range txs {
@@ -237,7 +240,7 @@ func init() {
 		Assumptions: []string{"the race detector sees only executed accesses; schedules are sampled (3 repetitions per group), not enumerated", "promptness is judged on the VM's own step counter, never on wall-clock time; a hang would hit the worker watchdog and be reported as inconclusive"},
 		BatchSize:   func(tier string, n int) int { return (n + 31) / 32 },
 		Cases: func(seed uint64, tier string) []Case {
-			ng := 36
+			ng := 30
 			if !quick(tier) {
 				ng = 600
 			}
@@ -263,7 +266,7 @@ func init() {
 		},
 		Run: func(c Case, tier string) (res CaseResult) {
 			if c.Kind == "conc" {
-				runC17Conc(c, &res)
+				runC17Conc(c, tier, &res)
 			} else {
 				runC17Cancel(c, &res)
 			}
